@@ -35,6 +35,7 @@ func usedJSON(b *harness.B) {
 		{"consensus.V2FileContractElementDiff/resolved-then-revised", &consensus.V2FileContractElementDiff{V2FileContractElement: fce(1), Resolution: &types.V2FileContractExpiration{}}, &consensus.V2FileContractElementDiff{V2FileContractElement: fce(2), Revision: &fc7}},
 		{"consensus.V2FileContractElementDiff/revised-then-resolved", &consensus.V2FileContractElementDiff{V2FileContractElement: fce(1), Revision: &fc7}, &consensus.V2FileContractElementDiff{V2FileContractElement: fce(2), Resolution: &types.V2FileContractExpiration{}}},
 		{"consensus.FileContractElementDiff/revised-then-plain", &consensus.FileContractElementDiff{FileContractElement: types.FileContractElement{ID: types.FileContractID{1}}, Revision: &types.FileContract{RevisionNumber: 3}}, &consensus.FileContractElementDiff{FileContractElement: types.FileContractElement{ID: types.FileContractID{2}}, Resolved: true, Valid: true}},
+		{"types.SatisfiedPolicy/signatures-then-none", &types.SatisfiedPolicy{Policy: types.PolicyPublicKey(types.PublicKey{1}), Signatures: []types.Signature{{1, 2, 3}}}, &types.SatisfiedPolicy{Policy: types.PolicyAbove(0)}},
 		{"types.SatisfiedPolicy/preimages-then-none", &types.SatisfiedPolicy{Policy: types.AnyoneCanSpend(), Preimages: [][32]byte{{1}, {2}}}, &types.SatisfiedPolicy{Policy: types.PolicyAbove(3)}},
 		{"types.V2FileContractResolution/storage-proof-then-expiration", &types.V2FileContractResolution{Parent: fce(1), Resolution: &types.V2StorageProof{ProofIndex: cie.Copy(), Proof: []types.Hash256{h(1)}}}, &types.V2FileContractResolution{Parent: fce(2), Resolution: &types.V2FileContractExpiration{}}},
 	}
